@@ -245,6 +245,23 @@ theorem C06_terminal_count_bounds {σ : Type} (tol : α) (O : Oracles σ α) (hl
 example : (∀ x ∈ [[(3 : Rat)], [-2]], (PT.findTerminal exRelu x).isSome) ∧
     ([[(3 : Rat)], [-2]].map (fun x => (PT.findTerminal exRelu x).map (·.1))).Nodup := by decide +kernel
 
+/-- the contract `MirrorNonempty` holds for the model of the heuristic (it answers `Some` with the candidates that
+    passed the test, of which there is at least one) -/
+theorem C06_model_mirror_nonempty {σ : Type} (eps fac : α) (heps : 0 ≤ eps) (norms : Aff α → List (Option α))
+    (hn : ∀ p : Aff α, (norms p).length = p.rows.length ∧ ∀ o ∈ norms p, ∀ k, o = some k → 0 < k) :
+    MirrorNonempty (σ := σ) (modelMirror eps fac norms) := by
+  intro s node poly ws k pts s' h
+  unfold modelMirror at h
+  simp only [Prod.mk.injEq] at h
+  cases hm : mirrorPoints eps fac poly (norms poly) ws k with
+  | none => rw [hm] at h; simp at h
+  | some r =>
+    obtain ⟨res, j⟩ := r
+    rw [hm] at h
+    simp only [Option.map_some, Option.some.injEq] at h
+    obtain ⟨rfl, _⟩ := h
+    exact (mirrorPoints_sound eps fac heps poly (norms poly) (hn poly).1 (hn poly).2 ws k res j hm).1
+
 /-- non-vacuity of the tree hypotheses of `C06_effective`: the fresh ReLU tree carries the cache invariant and the two
     extra clauses -/
 example (tol : Rat) : CacheOK tol 1 1 exRelu ∧ PT.StSound StNE [] exRelu :=
